@@ -19,11 +19,11 @@ RULE = ("one evaluation = one streamed computation (bnp.mean / bincount / histog
         "chunk_entries / chunk_lines / a user @streamable function / a Genome stream=True pipeline finished by "
         "bnp.compute) over one chunking of a generated sorted table, compared with the same public function on the "
         "whole table. Chunkings: every one of the 2^(n-1) cut sets (n <= 8 quick, <= 10 thorough; genomic pipelines "
-        "n <= 6 / 7) or every chunk size k of the file-backed stream, else the two extremes plus sampled cut sets "
+        "n <= 7 / 8) or every chunk size k of the file-backed stream, else the two extremes plus sampled cut sets "
         "(n <= 40). A case is non-trivial if the stream had >= 2 chunks; distinct = distinct tuples (family.op, "
         "source kind, number of chunks bucket, relation of the cuts to the key groups [inside a group / right after "
         "a group / single-entry chunk], fault kind)")
-BUDGET = {"quick": (3000, 40), "thorough": (40000, 900)}
+BUDGET = {"quick": (10000, 40), "thorough": (60000, 900)}
 ASSUMPTIONS = ["the reference is bionumpy's own result for the same public call on the whole table (never a model of "
                "the 'right' number); if it raises the run is inconclusive",
                "tracks are compared as dense per-chromosome arrays (two run segmentations of one array are one value)",
@@ -70,6 +70,11 @@ class Case:
 # ---------------------------------------------------------------------------------------------
 # generators (0 is the simplest choice everywhere)
 
+def _p(cap):
+    """probability of one more row: long tables when the cap is high"""
+    return (9, 10) if cap > 12 else (4, 5)
+
+
 def gen_grouped_rows(tape, cap, names, tag, allow_empty_groups=False, sizes=None, wide=False, min_total=1):
     """rows (chrom, start, stop) grouped by chromosome in the order of `names`, sorted by start inside a group.
     sizes: chromosome sizes (coordinates stay inside) or None (free coordinates < 60)."""
@@ -78,7 +83,7 @@ def gen_grouped_rows(tape, cap, names, tag, allow_empty_groups=False, sizes=None
         size = sizes[gi] if sizes else 60
         grp = []
         first = (gi == 0 and not allow_empty_groups)
-        while len(rows) + len(grp) < cap and (first and not grp or tape.more(tag + ".more", 2, 3)):
+        while len(rows) + len(grp) < cap and (first and not grp or tape.more(tag + ".more", *_p(cap))):
             start = tape.draw(size, tag + ".start")
             width = 1 + tape.draw(min(size - start, 12) + (3 if wide else 0), tag + ".width")
             grp.append((name, start, start + width))
@@ -104,7 +109,7 @@ def gen_bedgraph_rows(tape, cap, names, sizes, tag):
     rows = []
     for name, size in zip(names, sizes):
         pos = 0
-        while len(rows) < cap and pos < size and tape.more(tag + ".more", 3, 4):
+        while len(rows) < cap and pos < size and tape.more(tag + ".more", *_p(cap)):
             pos += tape.weighted([(3, 0), (1, 1), (1, 2)], tag + ".gap")
             if pos >= size:
                 break
@@ -119,7 +124,7 @@ def gen_bedgraph_rows(tape, cap, names, sizes, tag):
 def gen_reads(tape, cap, equal_len):
     rows = []
     L = 1 + tape.draw(6, "rd.len") if equal_len else None
-    while len(rows) < cap and (not rows or tape.more("rd.more")):
+    while len(rows) < cap and (not rows or tape.more("rd.more", *_p(cap))):
         ln = L or 1 + tape.weighted([(3, 0), (3, 1), (2, 3), (2, 5), (1, 8)], "rd.w")
         seq = "".join("ACGT"[tape.draw(4, "rd.c")] for _ in range(ln))
         qual = "".join("!#5I+"[tape.draw(5, "rd.q")] for _ in range(ln))
@@ -138,7 +143,7 @@ def gen_genome(tape):
 # ---------------------------------------------------------------------------------------------
 # families
 
-def build_reduce(ctx, tape, cap):
+def build_reduce(ctx, tape, cap, source):
     b = core.bnp()
     names = gen_key_names(tape, "key")
     kind = tape.weighted([(3, "interval"), (2, "bedgraph")], "kind")
@@ -149,7 +154,8 @@ def build_reduce(ctx, tape, cap):
         rows = gen_bedgraph_rows(tape, cap, names, [40] * len(names), "bg")
         field = tape.choice(["value", "start"], "field")
     is_float = field == "value"
-    ops = ["mean", "mean_axis0", "hist_edges", "hist_range"] + ([] if is_float else ["bincount", "bincount_minlength"])
+    ops = ["mean", "mean_axis0", "hist_edges", "hist_range"] + ([] if is_float else ["bincount", "bincount_minlength",
+                                                                                      "quantile"])
     op = tape.choice(ops, "op")
     params = {"field": field}
     if op == "hist_edges":
@@ -163,6 +169,8 @@ def build_reduce(ctx, tape, cap):
         params["range"] = [0, 1 + tape.draw(70, "h.hi")]
     elif op == "bincount_minlength":
         params["minlength"] = tape.draw(80, "bc.min")
+    elif op == "quantile":
+        params["q"] = tape.choice([0.5, 0.25, 0.9, 1.0], "q")
     case = Case("reduce", op, kind, rows, [r[0] for r in rows], params)
 
     def compute(src, streamed):
@@ -176,6 +184,8 @@ def build_reduce(ctx, tape, cap):
             return plain(b.bincount(col))
         if op == "bincount_minlength":
             return plain(b.bincount(col, minlength=params["minlength"]))
+        if op == "quantile":
+            return plain(b.quantile(col, params["q"]))           # bincount based
         if op == "hist_edges":
             return S.dense(b.histogram(col, bins=params["bins"]))
         if op == "hist_range":
@@ -185,10 +195,11 @@ def build_reduce(ctx, tape, cap):
     return case
 
 
-def build_seq(ctx, tape, cap):
+def build_seq(ctx, tape, cap, source):
     b = core.bnp()
     import numpy as np
-    op = tape.choice(["kmers", "qmean", "qmean_rows", "qmean_cols", "user_count_encoded", "user_n_reads"], "op")
+    op = tape.choice(["kmers", "qmean", "qmean_rows", "qmean_cols", "user_count_encoded", "user_n_reads",
+                      "reverse_complement"], "op")
     equal_len = tape.boolean("rd.equal", 1, 3)
     rows = gen_reads(tape, cap, equal_len)
     params = {"equal_len": equal_len}
@@ -221,6 +232,9 @@ def build_seq(ctx, tape, cap):
         if op == "user_n_reads":
             r = n_reads(data)
             return plain(sum(r) if streamed else r)
+        if op == "reverse_complement":
+            r = b.sequence.get_reverse_complement(data.sequence)     # a library function decorated @streamable()
+            return plain(S.concat(r) if streamed else r)
         raise KeyError(op)
     case.compute = compute
     if op == "qmean_cols" and len(widths) > 1:
@@ -231,7 +245,7 @@ def build_seq(ctx, tape, cap):
     return case
 
 
-def build_groupby(ctx, tape, cap):
+def build_groupby(ctx, tape, cap, source):
     b = core.bnp()
     col = tape.weighted([(3, "chromosome"), (1, "start")], "gb.col")
     if col == "chromosome":
@@ -241,7 +255,7 @@ def build_groupby(ctx, tape, cap):
     else:
         rows = []
         cur = 0
-        while len(rows) < cap and (not rows or tape.more("iv.more")):
+        while len(rows) < cap and (not rows or tape.more("iv.more", *_p(cap))):
             cur += tape.weighted([(2, 0), (2, 1), (1, 7)], "iv.step")
             rows.append(("chr1", cur, cur + 1 + tape.draw(5, "iv.width")))
         keys = [r[1] for r in rows]
@@ -254,7 +268,7 @@ def build_groupby(ctx, tape, cap):
     return case
 
 
-def build_rechunk(ctx, tape, cap):
+def build_rechunk(ctx, tape, cap, source):
     core.bnp()
     from bionumpy.streams.chunk_entries import chunk_entries
     from bionumpy.io.parser import chunk_lines
@@ -271,6 +285,11 @@ def build_rechunk(ctx, tape, cap):
         fn = chunk_entries if op == "chunk_entries" else chunk_lines
         out = []
         for c in fn(src.stream(), m):
+            if len(c) == 0:
+                # chunk_lines ends with an empty chunk when m divides n ("except possibly the last" allows it);
+                # the fields of an empty slice of a lazily read table are not part of this property
+                out.append(dict({f: [] for f in fields}, **{"<len>": 0}))
+                continue
             out.append(S.cols(c, fields))
             if len(out) > 4 * len(rows) + 4:
                 raise RuntimeError("bnpsim: no end of stream")
@@ -301,7 +320,7 @@ def build_rechunk(ctx, tape, cap):
     return case
 
 
-def build_user(ctx, tape, cap):
+def build_user(ctx, tape, cap, source):
     b = core.bnp()
     import numpy as np
     op = tape.choice(["total_length", "widths", "filter", "shift", "n_entries"], "op")
@@ -365,7 +384,7 @@ GENOMIC_OPS_B = [(3, "track"), (2, "track_sum"), (2, "track_hist"), (2, "track_a
                  (1, "track_gt"), (1, "from_track"), (1, "multi_track_tuple")]
 
 
-def build_genomic(ctx, tape, cap):
+def build_genomic(ctx, tape, cap, source):
     b = core.bnp()
     import numpy as np
     names, sizes = gen_genome(tape)
@@ -374,7 +393,12 @@ def build_genomic(ctx, tape, cap):
     params = {}
     extra = {"genome": [[n, s] for n, s in zip(names, sizes)]}
     if primary == "I":
-        op = tape.weighted(GENOMIC_OPS_I, "op")
+        ops = GENOMIC_OPS_I
+        if source == "file":
+            # extended_to_size on a table read (lazily) from a file raises in memory too (dataclasses.replace on the
+            # lazy Bed6 class): the reference never exists, so these two ops are not drawn for the file source
+            ops = [(w, o) for w, o in ops if o not in ("extend", "extend_clip_pileup")]
+        op = tape.weighted(ops, "op")
         stranded = op in ("extend", "extend_clip_pileup") or tape.boolean("g.stranded", 1, 3)
         wide = op == "clip"
         rows = gen_grouped_rows(tape, cap, names, "iv", allow_empty_groups=True, sizes=sizes, wide=wide)
@@ -433,7 +457,7 @@ def build_genomic(ctx, tape, cap):
     case = Case("genomic", op, kind, rows, [r[0] for r in rows], params)
     case.extra = extra
     case.multi = op.startswith("multi_")
-    case.exh = 7 if ctx.tier == "thorough" else 6
+    case.exh = 8 if ctx.tier == "thorough" else 7
     present = set(r[0] for r in rows)
     case.empty_chromosome = any(nm not in present for nm in names)
     sec_table = [None]
@@ -614,16 +638,20 @@ def run(ctx):
     source = tape.weighted([(3, "mem"), (2, "file")], "source")
     big = tape.boolean("big", 1, 6)
     exh_default = 10 if thorough else 8
-    cap = 40 if big else (7 if (family == "genomic" and thorough) else (6 if family == "genomic" else exh_default))
-    case = BUILDERS[family](ctx, tape, cap)
+    cap = 40 if big else (8 if (family == "genomic" and thorough) else (7 if family == "genomic" else exh_default))
+    case = BUILDERS[family](ctx, tape, cap, source)
     n = case.n
     exh = min(case.exh or exh_default, exh_default)
     cutmode = tape.weighted(CUTMODES, "cutmode")
     fault = tape.weighted([(8, None), (1, "cancel"), (1, "eio")], "fault")
+    if fault == "eio" and source == "mem":
+        fault = None      # an I/O error needs a backing file
     final_newline = not tape.boolean("nofinal", 1, 4)
     starts = S.group_starts(case.keys)
     pulls = S.Pulls()
-    table = S.make_table(case.kind, case.rows)
+    table = call(S.make_table, case.kind, case.rows)
+    if raised(table):
+        raise Inconclusive(f"the in-memory table cannot be built: {case.kind}: {table.type}")
     ctx.scenario = {"case": case.describe(), "n": n, "source": source, "cutmode": cutmode, "fault": fault}
 
     def rewrite_fixed(**kw):
@@ -647,6 +675,8 @@ def run(ctx):
             ref = call(case.compute, base, False)
             if raised(ref):
                 raise Inconclusive(f"in-memory reference raises: {case.family}.{case.op}: {ref.type}")
+            ctx.trace["in_memory"] = core.short(ref, 400)
+            single_chunk_baseline(case, base)
             if fault == "cancel":
                 do_cancel(ctx, tape, case, base.with_cuts(S.cuts_of_mask(fixed_mask, n)))
             todo = S.all_masks(n) if cutmode == "all" else ([fixed_mask] if cutmode == "fixed" else masks)
@@ -700,6 +730,9 @@ def run(ctx):
         ref = call(case.compute, base, False)
         if raised(ref):
             raise Inconclusive(f"in-memory reference raises: {case.family}.{case.op} (file): {ref.type}")
+        ctx.trace["in_memory"] = core.short(ref, 400)
+        with core.chunk_knob(size + 2):
+            single_chunk_baseline(case, base)
         if fault == "cancel":
             with core.chunk_knob(k_fixed):
                 do_cancel(ctx, tape, case, base.with_k(k_fixed))
@@ -751,6 +784,20 @@ def run(ctx):
                 raise
     ctx.io_events += fs.seq
     ctx.note("C11", case.family, case.op, source, cutmode, n, ctx.evals, fs.seq, core.digest(fs.log))
+
+
+def single_chunk_baseline(case, base):
+    """Genomic pipelines are combinations of documented steps; not every combination works with stream=True at all
+    (e.g. indexing a track with stranded intervals streamed from a file raises for every input).  The property is
+    about the chunking, so a pipeline whose streamed form raises even when the whole table arrives as ONE chunk is
+    not judged (inconclusive, listed by reason in the evidence); a one-chunk stream that returns a different VALUE is
+    judged like any other chunking.  The simple documented functions of the other families get no such allowance."""
+    if case.family != "genomic":
+        return
+    one = call(case.compute, base, True)
+    if raised(one):
+        raise Inconclusive(f"stream=True form raises even for a single chunk: {case.family}.{case.op} "
+                           f"({base.kind}{', stranded' if case.params.get('stranded') else ''}): {one.type}")
 
 
 def do_cancel(ctx, tape, case, src):
